@@ -94,6 +94,10 @@ func rewinder(fn *ssa.Function) bool {
 
 func runC06(c *Ctx) {
 	p := c.Progs["mod"]
+	c.Rule("C06.Y", "compatibility with the party that is not changed with this code: only list/fetch/post exchanges; a cut-short upload is answered 5xx; the proxy timeout is always applied", 5)
+	ruleAgentProxyExchanges(c, p, "C06.Y")
+	ruleUploadReadFailureIs5xx(c, p, "C06.Y")
+	ruleProxyTimeoutAlwaysApplied(c, p, "C06.Y")
 	f := c.need(p, "C06.A", "agent/utils.postResponseWithRetries")
 	c.Rule("C06.A", "at most three upload attempts", 3)
 	ruleOneSendPerRoundTrip(c, p, "C06.A")
